@@ -756,12 +756,12 @@ def c08(tier, seed):
 @check("C10")
 def c10(tier, seed):
     def build(run, vh, quick, rnd):
-        classes = srch.solver_positions(run, seed, 200 if quick else 40, True, "C10")
+        classes = srch.solver_positions(run, seed, 250 if quick else 40, True, "C10")
         m1 = classes.get("m1", [])
         m2 = classes.get("m2", [])
         if quick:
             m1 = rnd.sample(m1, min(len(m1), 25))
-            m2 = rnd.sample(m2, min(len(m2), 100))
+            m2 = rnd.sample(m2, min(len(m2), 60))
         dead = classes.get("mate", []) + classes.get("stale", [])
         extra_m1 = ["6k1/5ppp/8/8/8/8/8/R5K1 w - - 0 1", "r1bqkb1r/pppp1ppp/2n2n2/4p2Q/2B1P3/8/PPPP1PPP/RNB1K1NR w KQkq - 4 4",
                     "6k1/8/8/8/8/8/r4PPP/6K1 b - - 0 1"]
